@@ -138,6 +138,10 @@ def pool_for(isa, ty):
     p = []
     for x in (1, 2, 3, V, V + 1):
         if x not in p: p.append(x)
+    # even extents that are a multiple of a narrower vector width but not of the next one (6 = 2 mod 4, 10, 12 = 4 mod 8):
+    # the general loop nest picks its SIMD type and stride from divisibility of the fastest-changing extent
+    for x in (6, 10, 12):
+        if x not in p: p.append(x)
     return p
 
 def choose_extents(rng, L0, L1, isa, ty, loops, outmax, force=None, terms=10 ** 9, relax=1):
@@ -406,6 +410,8 @@ def cases(tier, seed):
             opairs = [x for x in opairs if prod(x[0]) * prod(x[1]) <= (4 * OUT if thorough else 2 * OUT)]
             for (s0, s1) in (opairs if thorough else sample(rng, opairs, 3)):
                 out.append(outer_case(ty, list(s0), list(s1), Cfg(isa, std_for())))
+            for n_ in ((2, 3, 4) if not thorough else (2, 3, 4, 5, 8)):      # equal extents: the specialised outer-product kernels
+                out.append(outer_case(ty, [n_], [n_], Cfg(isa, std_for()), api=('outer', 'dyadic')[n_ % 2]))
             if INCLUDE_REJECTED:     # an operand of type Tensor<T,1>: see the module docstring
                 for (s0, s1) in [((1,), (V,)), ((V + 1,), (1,)), ((1,), (1,)), ((2, 3), (1,))]:
                     out.append(outer_case(ty, list(s0), list(s1), Cfg(isa, 'c++14'), api='outer', fam='outer-ext1'))
